@@ -35,6 +35,7 @@ type Job struct {
 	Switches int    `json:"max_switches"`
 	MaxEnum  int    `json:"max_enum"`
 	Solver   string `json:"solver"`
+	Seed     uint64 `json:"seed"`
 }
 
 type JobResult struct {
@@ -64,6 +65,7 @@ type JobResult struct {
 	Fallbacks    int                      `json:"cvc5_fallback_queries"`
 	FallbackS    float64                  `json:"cvc5_fallback_time_s"`
 	Steps        int64                    `json:"ssa_steps"`
+	Records      map[string]string        `json:"records,omitempty"`
 	Error        string                   `json:"error,omitempty"`
 }
 
@@ -266,7 +268,7 @@ func runJob(prog *ssa.Program, job Job, trace bool, logDir string) (res *JobResu
 	cfg := Config{
 		MaxUnwind: job.Unwind, MaxSteps: job.Steps, MaxPaths: job.MaxPaths, PanicsOK: job.PanicsOK,
 		Shard: job.Shard, NShards: job.NShards, Trace: trace, ThreadMode: job.Threads, MaxSwitches: job.Switches,
-		MaxEnum: job.MaxEnum,
+		MaxEnum: job.MaxEnum, Seed: job.Seed,
 	}
 	if cfg.MaxSteps == 0 {
 		cfg.MaxSteps = 2000000
@@ -300,5 +302,6 @@ func runJob(prog *ssa.Program, job Job, trace bool, logDir string) (res *JobResu
 	res.Fallbacks = sol.Fallbacks
 	res.FallbackS = sol.FallbackT.Seconds()
 	res.Steps = ex.TotalSteps
+	res.Records = ex.Records
 	return
 }
